@@ -305,7 +305,7 @@ def run_check(prop, tier="quick", only=None, verbose=False, seed=0, mutant=None,
         for r in selftest:
             if not r["killed"]:
                 problems.append(f"self-test: seeded defect {r['name']} was not reported (rc={r['rc']})")
-    _write_evidence(prop, tier, seed, per_ob, tot, wall, violations, known, problems, mismatches, shim_list, mod, selftest)
+    _write_evidence(prop + (".partial" if only else ""), tier, seed, per_ob, tot, wall, violations, known, problems, mismatches, shim_list, mod, selftest)
     for f, item in known:
         print(f"KNOWN-FINDING: property={prop} {f['what']} [{item['signature']}]")
     for mm in mismatches:
@@ -354,7 +354,7 @@ def _write_evidence(prop, tier, seed, per_ob, tot, wall, violations, known, prob
     for r in per_ob[:40]:
         samples.append({k: r.get(k) for k in ("obligation", "verdict", "bounds", "paths", "queries", "claims", "sample_inputs")})
     ev = dict(
-        property_id=prop,
+        property_id=prop.split(".")[0],
         tier=tier,
         seed=int(seed),
         level="model_checking",
